@@ -1,11 +1,11 @@
-"""C13 - jets are callable with the library's arity/order/result type; arguments reach the jet in written order.
+"""C13 - jets are callable with the documented arity/order/result type; arguments reach the jet in written order.
 
 For every jet of Elements::ALL (as listed by the real library at check time) a one-call program is
-generated from the library's own signature table; the jet under test is an *uninterpreted function*, so
+generated from the pinned signature table of the release (jet_signatures.jsonl); the jet under test is an *uninterpreted function*, so
 the solver proves - for every meaning the jet could have - that the bits entering the jet are the
 arguments in written order (documented product layout) and that the result is delivered unchanged.
 """
-import json, subprocess
+import json, os, subprocess
 
 from ..src import *
 from .. import engine as E
@@ -17,11 +17,28 @@ RESERVED = ("verify", "check_sig_verify")
 CTX8 = TUP(LIST(U(8), 64), TUP(U(64), U(256)))
 
 
+PINNED = os.path.join(os.path.dirname(os.path.dirname(os.path.abspath(__file__))), "jet_signatures.jsonl")
+
+
+def pinned_signatures():
+    """the documented signatures: the table of the pinned release (what docs.rs / the codegen tool print for it), committed with the
+    framework.  Deliberately NOT re-read from jet.rs at check time: the calls are generated from this table, so a signature that is
+    regrouped, reordered across types or re-typed in jet.rs makes documented calls stop compiling (reported with the real compiler's
+    message).  Jets the library adds later are called with the library's own signature."""
+    return {j["jet"]: j for j in (json.loads(l) for l in open(PINNED) if l.strip())}
+
+
 def list_jets():
     out = subprocess.run([E.DRIVER_BIN, "jets"], capture_output=True, text=True)
     if out.returncode != 0:
         raise E.Broken("driver jets failed: " + out.stderr[-500:])
-    return [json.loads(l) for l in out.stdout.splitlines() if l.strip()]
+    live = [json.loads(l) for l in out.stdout.splitlines() if l.strip()]
+    pinned = pinned_signatures()
+    names = set(j["jet"] for j in live)
+    merged = [dict(pinned[j["jet"]], live=j) if j["jet"] in pinned else dict(j, live=j) for j in live]
+    # a documented jet that the library no longer lists is still called (and will be refused)
+    merged += [dict(j, live=None) for n, j in sorted(pinned.items()) if n not in names]
+    return merged
 
 
 def build(j, variant):
@@ -142,16 +159,20 @@ def main():
 
     def extra(results):
         jets_done = set(r["tags"].get("jet") for r in results if r["status"] == "held" and r["tags"].get("jet"))
-        return {"jets_in_Elements_ALL": n_jets, "jets_with_all_obligations_discharged": len(jets_done), "exhaustive": True,
+        live = {j["jet"]: j["live"] for j in list_jets()}
+        pinned = pinned_signatures()
+        changed = sorted(n for n, j in pinned.items() if live.get(n) is None or live[n]["rparams"] != j["rparams"] or live[n]["rresult"] != j["rresult"])
+        return {"jets_in_Elements_ALL": n_jets, "jets_in_pinned_signature_table": len(pinned),
+                "jets_whose_library_signature_differs_from_the_pinned_table": changed, "jets_with_all_obligations_discharged": len(jets_done), "exhaustive": True,
                 "jets_with_interpreted_model_validated_against_C": len(set(r["tags"].get("jet") for r in results if r["cid"].endswith("-int") and r["validated"] > 0))}
 
     return suite.run_property(
         "C13", cs, rejection_is_violation=True,
         technique="SMT (z3, QF_UFBV): jet under test as an uninterpreted function on both sides; equivalence of emitted DAG and source-level call for all argument values and all jet meanings",
         functions=["compile.rs: Call::compile (Jet), SingleExpression::tuple / BTreeSlice::fold (argument tupling), with_debug_symbol",
-                   "ast.rs: jet lookup, reserved jets, arity and result type check", "jet.rs: source_type/target_type (as the source of the generated signatures)"],
+                   "ast.rs: jet lookup, reserved jets, arity and result type check", "jet.rs: source_type/target_type (checked against the pinned signature table through the generated calls)"],
         bounds={"jets": "every jet of Elements::ALL as listed by the library at check time", "call_shapes": ["witness arguments", "arguments through variables/blocks/parentheses", "call inside a custom function", "types written with the builtin alias names of the signature table (every jet whose signature has one)"]},
-        outside=["whether each signature in jet.rs is the documented one (needs an external table; not a solver question)",
+        outside=["the documented signatures are the table of the pinned release (simsym/jet_signatures.jsonl): a change of jet.rs against it shows as documented calls that stop compiling (enumeration, replayed through the real compiler), not as a solver verdict",
                  "the arithmetic meaning of jets: bit-vector models exist for ~300 jets and are validated against the real C jets on the solver-chosen succeeding/failing points only"],
         assumptions=["z3 4.8.12 is sound on QF_UFBV", "the product layout of the argument tuple follows book/src/type_casting.md (simsym/src.py: to_bits)"],
         extra_coverage=extra, min_validated=200,
